@@ -250,7 +250,9 @@ def work_point(arg):
     if dtype == 'float':
         c = ru.ads_consts(pygaps.Adsorbate.find('N2').backend_name, 77.355)
         with ru.library_tables():
-            for tag, q in qs[2:5]:
+            for tag, q in qs:       # incl. the Henry region below the first point and the first knot itself
+                if not core.call(mk().spreading_pressure_at, q).ok:
+                    continue
                 base = ref_point_sp(ps, ns, q)
                 for kw, qq, factor, name in (
                         (dict(pressure_unit='kPa'), q * 100.0, 1.0, 'pressure in kPa'),
@@ -258,13 +260,15 @@ def work_point(arg):
                         (dict(loading_unit='mol'), q, 1e-3, 'loading in mol'),
                         (dict(loading_basis='mass', loading_unit='g'), q, 1e-3 * c['M'], 'loading in g'),
                         (dict(material_unit='kg'), q, 1e3, 'per kg of material')):
+                    if tag.startswith('last') and 'pressure' in name:
+                        continue    # the end knot expressed in another unit lands 1 ulp outside the range after conversion
                     iso = mk()
                     o = core.call(iso.spreading_pressure_at, qq, **kw)
                     out['ev'] += 1
                     out['nt'] += 1
                     if not o.ok or abs(float(o.value) - base * factor) > 1e-7 * abs(base * factor):
                         v('point-sp-unit-argument', f'spreading_pressure_at({qq:.6g}, {kw}) = {o.value if o.ok else o.brief()} but converting first gives {base * factor:.12g}',
-                          base * factor, o.value if o.ok else o.brief(), {'argument': name})
+                          base * factor, o.value if o.ok else o.brief(), {'argument': name, 'where': tag.rstrip('0123456789')})
     return out
 
 
